@@ -567,6 +567,11 @@ static void stampWorker(StampThread &me, Mailbox &mail, TimeStamp &shared, const
       std::lock_guard<std::mutex> g(mail.mtx);
       mail.box[me.t]    = *slot[a];
       mail.model[me.t]  = mv[a];
+      if ((size_t)mail.box[me.t] != mv[a]) {
+        me.bad = true;
+        vh::violation("C19:timestamp:copy-assign-value",
+                      "published stamp has value " + std::to_string((size_t)mail.box[me.t]) + ", source had " + std::to_string(mv[a]), who);
+      }
       mail.filled[me.t] = 1;
       me.nMail++;
       break;
